@@ -8,7 +8,13 @@ A failing route whose every offending segment satisfies the extracted classifier
 Two further families: "contains" (multi-transaction histories in which an endpoint starts strictly inside a shape that then leaves
 it; route_ok with the containment exemption evaluated on the CURRENT polygons after every processTransaction) and "hyperedge"
 (free junction + 3-5 orthogonal connectors, obstacles near the trunks, both hyperedge-improvement options, with / without nudging;
-the exemption-free core segs_clear on every connector's displayRoute, junction ends at position() or recommendedPosition())."""
+the exemption-free core segs_clear on every connector's displayRoute, junction ends at position() or recommendedPosition()).
+Third round (DESIGN 9.10): the edge loop of Router::newBlockingShape is itself translated by cpp2v (Gen/BlockingLoop.v, a loop slice) and proved equal to the
+hand model (Avoid/BlockingGen.v); the real EdgeInf::firstBlocker / Router::newBlockingShape are run on (segment, polygon) inputs against the extracted
+spec_shapeBlocks (harness/c03_block.cpp, check_blocking); history families "wedged" (three mutually touching rectangles, activation order of the wedged one)
+and "pocket" (unroutable, then routable); scene family "zbend" (Z-bend connectors in a shared corridor, unifying nudging pre-step).  A route along a degenerate
+chord is a known finding only if the proved per-shape test does not block it (degenerate_chord) or, when it does, if the edge was last computed by the rotational
+sweep with the shape already active (sweep_border_chord, path-sensitive classifier avoid_lib.sweep_computed_edge_last)."""
 import os, json, hashlib
 from vlib import common as C
 from checks import avoid_lib as A
@@ -118,11 +124,20 @@ def check_cases(res, exe, drv, cases, stats, samples):
         raw = d['route'].get(cid, [])
         roff = A.parse_chk(A.run_driver(drv, [A.q_chk(bpolys, s, t, raw)])[0]) if len(raw) >= 2 else [(-1, -1, 0)]
         obj['raw_route_offenders_vs_routing_polygons_(segment,shape,degenerate_chord)'] = roff
-        if roff and roff != [(-1, -1, 0)] and all(o[2] == 1 for o in roff):
-            stats['known_degenerate_chord'] += 1
-            if not res.violation(obj, fingerprint='degenerate_chord'):
+        cops = [('A', ids[k], [(int(x), int(y)) for x, y in P]) for k, P in enumerate(c['polys'])] + \
+               [('C', 100 + k, sd[0], sd[1]) for k, sd in enumerate(c['conns'])] + [('P',)]
+        fp = A.classify_border_chords(drv, bpolys, ids, raw, roff, cops, 1) if len(raw) >= 2 else None
+        if fp:
+            stats['known_' + fp] = stats.get('known_' + fp, 0) + 1
+            obj['classifier'] = fp
+            if not res.violation(obj, fingerprint=fp):
                 continue
         else:
+            if c['stream'] == 'zbend' and stats.get('zbend_violations', 0) >= 4:
+                stats['zbend_violations'] += 1; stats['violations'] += 1
+                continue                                  # four reproducers of one directed family per run are enough
+            if c['stream'] == 'zbend':
+                stats['zbend_violations'] = stats.get('zbend_violations', 0) + 1
             res.violation(obj)
         stats['violations'] += 1
 
@@ -137,7 +152,15 @@ DIRECTED_CONFIGS = [('noop', 'noop-poly-pen0-trans', 0, 0, 0, 1), ('noop', 'noop
                     ('noop', 'noop-orth-nudge4-trans', 1, 10, 4, 1),
                     ('addmove', 'addmove-poly-pen0-trans', 0, 0, 0, 1), ('addmove', 'addmove-orth-nonudge-trans', 1, 10, 0, 1),
                     ('only', 'only-orth-nonudge-trans', 1, 10, 0, 1), ('only', 'only-orth-nudge4-trans', 1, 10, 4, 1), ('only', 'only-poly-pen0-trans', 0, 0, 0, 1)]
-DIRECTED_GEN = {'noop': A.gen_noop_move_history, 'addmove': A.gen_addmove_history, 'only': A.gen_homogeneous_history}
+# third round (DESIGN 9.10): "wedged" = three mutually touching rectangles, the wedged one becoming active after the visibility edge between its
+# neighbours exists (largest id of a transaction, later transaction, moved / grown into the gap); "pocket" = unroutable, then routable
+DIRECTED_CONFIGS += [('wedged', 'wedged-poly-pen0-trans', 0, 0, 0, 1), ('wedged', 'wedged-poly-pen0-notrans', 0, 0, 0, 0), ('wedged', 'wedged-poly-pen10-trans', 0, 10, 0, 1),
+                     ('pocket', 'pocket-poly-pen0-trans', 0, 0, 0, 1), ('pocket', 'pocket-poly-pen10-notrans', 0, 10, 0, 0),
+                     ('pocket', 'pocket-orth-nudge4-trans', 1, 10, 4, 1), ('pocket', 'pocket-orth-nonudge-notrans', 1, 10, 0, 0)]
+DIRECTED_GEN = {'noop': A.gen_noop_move_history, 'addmove': A.gen_addmove_history, 'only': A.gen_homogeneous_history,
+                'wedged': A.gen_wedged_history, 'pocket': A.gen_pocket_history}
+# "zbend" scene family (orthogonal, nudging on, default options): 2-3 connectors with Z-bends in a shared corridor region, one channel narrowed by an extra shape
+ZBEND_CONFIGS = [('zbend-orth-nudge4', 1, 10, 0, 4), ('zbend-orth-pen50-nudge8', 1, 50, 0, 8)]
 FP_DISPLACED = 'hyperedge_free_terminal_displaced'
 FH_ASSERT = 'orthogonalDirectionsCount(thisDirs) > 0'       # C11 known finding assert:makepath.cpp:orthogonalDirectionsCount (DESIGN 6 F-h)
 
@@ -237,13 +260,19 @@ def check_histories(res, exe, drv, hists, stats, samples):
             continue
         if A.parse_route_answer(A.run_driver(drv, [A.q_plain(polys, s, t)])[0]) is None:
             stats['no_free_path'] += 1
+            if h.get('family') == 'pocket':
+                stats['pocket_closed_steps'] = stats.get('pocket_closed_steps', 0) + 1
             continue
+        if h.get('family') == 'pocket':
+            stats['pocket_open_failures'] = stats.get('pocket_open_failures', 0) + 1
         raw = d['route'].get(c, [])
         roff = A.parse_chk(A.run_driver(drv, [A.q_chk(polys, s, t, raw)])[0]) if len(raw) >= 2 else [(-1, -1, 0)]
         obj['raw_route_offenders_(segment,shape,degenerate_chord)'] = roff
-        if roff and roff != [(-1, -1, 0)] and all(o[2] == 1 for o in roff):
-            stats['known_degenerate_chord'] += 1
-            if not res.violation(obj, fingerprint='degenerate_chord'):
+        fp = A.classify_border_chords(drv, polys, sorted(d['shapes'].keys()), raw, roff, h['ops'][:i + 1], h['trans']) if len(raw) >= 2 else None
+        if fp:
+            stats['known_' + fp] = stats.get('known_' + fp, 0) + 1
+            obj['classifier'] = fp
+            if not res.violation(obj, fingerprint=fp):
                 continue
         else:
             res.violation(obj)
@@ -375,6 +404,43 @@ def check_hyper(res, exe, drv, scenes, stats, samples):
                            'replay': './check C03 --replay <this file>  (runs "script" on harness/c03_route.cpp and re-checks every connector)'})
 
 
+def check_blocking(res, drv, rng, stats, tier):
+    """correspondence for the per-shape blocking loops: the REAL EdgeInf::firstBlocker and Router::newBlockingShape (harness/c03_block.cpp) on
+    one segment and one convex polygon against the extracted spec_shapeBlocks (= blocked_by_shape = the cpp2v translation of newBlockingShape's
+    loop, C03_blocked_by_shape_eq_spec); generator aimed at the end-point-touch cases + an exhaustive sweep of three small polygons."""
+    bexe = A.block_harness()
+    qs = A.small_block_sweep() + A.gen_block_queries(rng, 1500 if tier == 'quick' else 12000)
+    impl = A.run_block_harness(bexe, qs)
+    mq, midx = [], []
+    for t in qs:
+        midx.append(len(mq))
+        mq.append('BLK %s %s %s' % (A.tok_poly(t[0]), A.tok_pt(t[1]), A.tok_pt(t[2])))
+        if len(t) == 5:
+            mq.append('BLK %s %s %s' % (A.tok_poly(t[4]), A.tok_pt(t[1]), A.tok_pt(t[2])))
+    mans = [a.split() for a in A.run_driver_parallel(drv, mq)]
+    hist, bad = {}, 0
+    for t, im, k in zip(qs, impl, midx):
+        P, p, q, tag = t[:4]
+        mo = mans[k]
+        first_blocks = int(mans[k + 1][0]) if len(t) == 5 else 0
+        want = (1 if (int(mo[0]) or first_blocks) else 0, int(mo[0]))          # firstBlocker: any shape blocks; newBlockingShape: the polygon under test
+        key = '%s touches=%s crossed=%s' % (tag.split(':')[0] + ('+first' if len(t) == 5 and '+first' not in tag.split(':')[0] else ''), mo[1] if int(mo[1]) < 3 else '3+', mo[2])
+        hist[key] = hist.get(key, 0) + 1
+        if im[0] == 'EXC' or im != want:
+            bad += 1
+            if bad <= 3:
+                res.violation({'what': 'the per-shape blocking loop of the implementation disagrees with the verified model blocked_by_shape on this segment and polygon '
+                                       '(a visibility edge that the model blocks is kept, or vice versa)', 'polygon': P, 'e1': p, 'e2': q, 'generator_case': tag,
+                               'first_shape_(walked_before_the_polygon_by_firstBlocker)': t[4] if len(t) == 5 else None, 'first_shape_blocks_(model)': first_blocks,
+                               'impl_(firstBlocker_blocked,newBlockingShape_blocked)': im, 'model_(firstBlocker,newBlockingShape)': want, 'model_blocked': int(mo[0]), 'end_point_touches': int(mo[1]),
+                               'some_edge_properly_crossed': int(mo[2]), 'segment_passes_through_interior': int(mo[3]), 'degenerate_chord': int(mo[4]),
+                               'replay': 'echo "%s" | build/bin/c03_block-exc-*   (prints "B <firstBlocker> <newBlockingShape>")' %
+                                         (('B %s %r %r %r %r' % (A.fmt_poly(P), p[0], p[1], q[0], q[1])) if len(t) == 4 else
+                                          ('D %s %s %r %r %r %r' % (A.fmt_poly(t[4]), A.fmt_poly(P), p[0], p[1], q[0], q[1])))})
+                stats['violations'] += 1
+    stats['blocking'] = {'queries': len(qs), 'exhaustive_sweep_queries': len(A.small_block_sweep()), 'disagreements': bad, 'case_histogram': hist}
+
+
 def make_case(stream, cfgname, polys, conns, mode, pen, buf, nudge):
     return {'stream': stream, 'cfg': cfgname, 'polys': polys, 'conns': conns, 'mode': mode, 'pen': pen, 'buf': buf, 'nudge': nudge,
             'script': A.scene_script(polys, conns, mode, pen, buf, nudge, 1)}
@@ -414,9 +480,14 @@ def run_corpus(res, exe, drv, stats):
             if off:
                 obj = {'what': 'corpus case: displayRoute fails route_ok', 'corpus': name, 'shapes': j['shapes'], 'src': s, 'dst': t,
                        'displayRoute': route, 'offenders_(segment,shape,degenerate_chord)': off, 'script': j['script']}
-                if off != [(-1, -1, 0)] and all(o[2] == 1 for o in off):
-                    stats['known_degenerate_chord'] += 1
-                    if not res.violation(obj, fingerprint='degenerate_chord'):
+                raw = d['route'].get(100 + i, [])
+                roff = A.parse_chk(A.run_driver(drv, [A.q_chk(polys, tuple(s), tuple(t), raw)])[0]) if len(raw) >= 2 else [(-1, -1, 0)]
+                trans = int(j['script'][0].split()[5]) if j['script'] and j['script'][0].startswith('R ') else 1
+                fp = A.classify_border_chords(drv, polys, sorted(d['shapes'].keys()), raw, roff, A.parse_hist_ops(j['script']), trans)
+                if fp:
+                    stats['known_' + fp] = stats.get('known_' + fp, 0) + 1
+                    obj['classifier'] = fp
+                    if not res.violation(obj, fingerprint=fp):
                         continue
                 else:
                     res.violation(obj)
@@ -425,7 +496,7 @@ def run_corpus(res, exe, drv, stats):
 
 def run(tier):
     res = C.Result(PID, tier, 'proof')
-    info = C.prove(res, PID, gen_modules=['Geometry'])
+    info = C.prove(res, PID, gen_modules=['Geometry', 'BlockingLoop'])
     res.assumptions = [
         'route_ok is run on the un-buffered polygons and on the exact rational value of every printed binary64 coordinate',
         'orthogonal mode treats a shape as its bounding box (Obstacle::routingBox), so in orthogonal configurations the generated '
@@ -461,9 +532,19 @@ def run(tier):
             polys, conns = A.gen_degenerate_scene(rng, use_bbox=(mode == 1))
             if polys and conns:
                 cases.append(make_case('degenerate', name, polys, conns, mode, pen, buf, nudge))
+    rz = C.SplitMix64(C.get_seed() ^ 0xC0356)           # own streams: the older families keep their inputs
+    for (name, mode, pen, buf, nudge) in ZBEND_CONFIGS:
+        k = 0
+        while k < (90 if tier == 'quick' else 600):
+            sc = A.gen_zbend_scene(rz)
+            if sc is None:
+                continue
+            k += 1
+            cases.append(make_case('zbend', name, sc[0], sc[1], mode, pen, buf, nudge))
     B = 400
     for i in range(0, len(cases), B):
         check_cases(res, exe, drv, cases[i:i + B], stats, samples)
+    check_blocking(res, drv, C.SplitMix64(C.get_seed() ^ 0xB10C), stats, tier)
     # contains family (histories) and hyperedge family
     n_cont, n_hyp = (30, 600) if tier == 'quick' else (200, 4000)
     hists = []
@@ -478,10 +559,11 @@ def run(tier):
                 stats['contains_variants'][t] = stats['contains_variants'].get(t, 0) + 1
             hists.append({'cfg': name, 'mode': mode, 'pen': pen, 'nudge': nudge, 'trans': trans, 'ops': ops})
     n_dir = 25 if tier == 'quick' else 200
+    rd = C.SplitMix64(C.get_seed() ^ 0xC0355)
     for (fam, name, mode, pen, nudge, trans) in DIRECTED_CONFIGS:
         k = 0
         while k < n_dir:
-            ops, tags = DIRECTED_GEN[fam](rng, rect_only=(mode == 1))
+            ops, tags = DIRECTED_GEN[fam](rd if fam in ('wedged', 'pocket') else rng, rect_only=(mode == 1))
             if ops is None:
                 continue
             k += 1
@@ -508,7 +590,7 @@ def run(tier):
         'traces_validated_against_impl': stats['routes'] + stats['corpus'],
         'routes_by_config': stats['by_config'], 'bends_histogram': {str(k): v for k, v in sorted(stats['bends_hist'].items())},
         'no_free_path_cases_skipped': stats['no_free_path'], 'endpoint_in_mitred_buffer_zone_skipped': stats.get('endpoint_in_buffer_zone', 0), 'libavoid_exceptions': stats['exceptions'],
-        'known_degenerate_chord_cases': stats['known_degenerate_chord'], 'checker_failures_reported': stats['violations'],
+        'known_degenerate_chord_cases': stats['known_degenerate_chord'], 'known_sweep_border_chord_cases': stats.get('known_sweep_border_chord', 0), 'checker_failures_reported': stats['violations'],
         'corpus_cases': stats['corpus'], 'exhaustive': False,
         'contains_family': {'what': 'multi-transaction histories: an endpoint strictly inside a shape, the shape moved / resized / deleted away (variants: moved '
                                     'back over it, another shape moved or added onto it), then a change that recomputes the endpoint\'s visibility; route_ok on the '
@@ -521,6 +603,12 @@ def run(tier):
                                               'round the shape; addmove = add + moves + relative move of one shape in one transaction; only = transactions of only '
                                               'deletions / additions / endpoint changes; route_ok on the current scene after every processTransaction',
                                       'routes_checked': stats['directed_routes'], 'variant_histogram': stats['directed_variants']},
+        'blocking_loop_correspondence': dict(stats.get('blocking', {}), what='real EdgeInf::firstBlocker and Router::newBlockingShape on (segment, polygon) vs the extracted '
+                                             'spec_shapeBlocks; 0 / 1 / 2 end-point touches on different edges, vertex touches, collinear overlaps, chords through vertices; '
+                                             'plus every ordered pair of a 7x7 lattice round a square, a triangle and an octagon'),
+        'third_round_families': {'wedged/pocket variant histogram': {k: v for k, v in stats['directed_variants'].items() if k.startswith(('wedged', 'pocket'))},
+                                 'pocket_steps_without_any_route_(skipped)': stats.get('pocket_closed_steps', 0),
+                                 'zbend_routes_checked': sum(v for k, v in stats['by_config'].items() if k.startswith('zbend'))},
         'hyperedge_family': {'what': 'free (1 in 4 with nudging: fixed) JunctionRef with 3-5 orthogonal connectors to free terminal points, 1-4 rectangular obstacles; kinds: corridor '
                                      '(a branch squeezed between two obstacles next to its terminal\'s column while the other branches pull the trunk that way) and '
                                      'random; improvement option none / MovingJunctions / MovingAddingAndDeletingJunctions; nudging 0 / 4; buffer 0 / 4; 8 symmetries',
@@ -532,6 +620,9 @@ def run(tier):
                              'connectors_with_displaced_free_terminal_(fixed_4cfc785)': stats['hyper_terminal_displaced'],
                              'route_end_problems_reported': stats['hyper_end_problems'],
                              'routes_through_a_shape_interior': stats.get('hyper_crossings', 0)}})
+    res.cov['proof_status'] = {'ok': info['ok'], 'broken_files': info.get('broken'), 'broken_lemmas': info.get('broken_lemmas'), 'unsupported': info.get('unsupported')}
+    if res.violations and not info['ok']:
+        C.log('C03: proof obligations broken as well: %s %s' % (info.get('broken_lemmas'), info.get('unsupported')))
     if not res.violations and not info['ok']:
         res.violation({'what': 'a proof obligation of C03 no longer checks (or cpp2v left the fragment); the search - route_ok on every '
                                'real route of both streams and the corpus - found no route through an obstacle',
@@ -592,7 +683,9 @@ META = {
                 'so its routes pass route_ok. Tie: translator for the predicates + the extracted route_ok run on every real displayRoute of a '
                 'generic and a degenerate scene stream, on multi-transaction histories in which an endpoint starts inside a shape that later leaves it '
                 '(exemption evaluated on the current scene), and segs_clear (C03_segs_clear_exact: no segment through any shape, no exemption) on every connector of '
-                'hyperedge scenes (free junction, 3-5 orthogonal connectors, both improvement options, with/without nudging) '
+                'hyperedge scenes (free junction, 3-5 orthogonal connectors, both improvement options, with/without nudging); correspondence of the real '
+                'EdgeInf::firstBlocker and Router::newBlockingShape with spec_shapeBlocks on (segment, polygon) inputs (touch cases + exhaustive 7x7 lattice sweep of three polygons); '
+                'directed families wedged / pocket / zbend (DESIGN 9.10) '
                 '(V: validation and search, not proof of the implementation).',
         'design_ref': 'DESIGN.md 5.3'},
     'level_note': 'partial + finding. Trusted: Coq kernel; cpp2v.py + clang AST; exact-rational model of binary64; extraction (ExtrOcamlBasic) and the '
@@ -603,6 +696,13 @@ META = {
                   'Orthogonal mode treats shapes as bounding boxes, so endpoints are generated outside the boxes there (contains family: strictly inside rectangles). '
                   'Hyperedge improvement (hyperedgeimprover.cpp / hyperedgetree.cpp) is not modelled: seen only through segs_clear and the route-end oracle on generated '
                   'scenes; the defect they exposed (free-point terminal dragged along by the segment shifting, diagnosis label hyperedge_free_terminal_displaced) is repaired '
-                  'in /repo (4cfc785) and kept as the regression scene corpus/c03_hyper_terminal.json.',
+                  'in /repo (4cfc785) and kept as the regression scene corpus/c03_hyper_terminal.json. '
+                  'Blocking loops: newBlockingShape\'s loop is tied by translation (cpp2v loop slice: for-loop + the declarations of its state in the same block; break -> broke flag; '
+                  'the surrounding iteration over the visibility graph, the inPoly exemption for connector ends and the removal of the edge are NOT translated); '
+                  'EdgeInf::firstBlocker walks VertInf pointers and is tied by correspondence only (harness/c03_block.cpp vs the extracted spec_shapeBlocks). '
+                  'Known findings: degenerate_chord (F-b; classifier now also requires that the proved per-shape test does not block the chord, i.e. fewer than two end-point touches) and '
+                  'sweep_border_chord (the rotational sweep accepts a chord whose two ends lie on the border of an already active third shape; classifier is path-sensitive: the edge was last '
+                  'computed by the sweep after the shape became active, not tested by newBlockingShape / firstBlocker afterwards). The unifying nudging pre-step and the "no route -> retry" flag '
+                  'are seen only through route validity on the zbend / pocket families.',
     'technique': 'Coq proof over cpp2v-regenerated Gallina + verified route checker run on the implementation\'s routes',
 }
